@@ -6,6 +6,7 @@ import (
 	"go/parser"
 	"go/token"
 	"go/types"
+	"strconv"
 	"strings"
 )
 
@@ -281,6 +282,15 @@ func (f *FuncCtx) specType(text string) types.Type {
 		pos = f.Decl.Body.Lbrace + 1
 	}
 	tv, err := types.Eval(f.Pkg.Fset, pkg, pos, text)
+	if err != nil {
+		// package-qualified names live in file scopes: try each file of the package
+		for _, file := range f.Pkg.Syntax {
+			if tv2, err2 := types.Eval(f.Pkg.Fset, pkg, file.Name.End(), text); err2 == nil {
+				tv, err = tv2, nil
+				break
+			}
+		}
+	}
 	if err == nil {
 		if n, ok := tv.Type.(*types.Named); ok && n.TypeParams().Len() > 0 && n.TypeArgs().Len() == 0 {
 			var names []string
@@ -394,6 +404,16 @@ func (f *FuncCtx) specCall(e *ast.CallExpr, env *Env) ([]Val, bool) {
 			return []Val{f.boolVal(fmt.Sprintf("(forall ((%s %s)) (=> %s %s))", q, f.S.SortOf(t), guard, body.T))}, true
 		}
 		return []Val{f.boolVal(fmt.Sprintf("(exists ((%s %s)) (and %s %s))", q, f.S.SortOf(t), guard, body.T))}, true
+	case "res":
+		// res(i, call): i-th result of a multi-value call
+		var k int
+		fmt.Sscanf(exprStr(e.Args[0]), "%d", &k)
+		vs := f.exprMulti(e.Args[1], env)
+		if k >= len(vs) {
+			f.fail("res(%d, ...) out of range", k)
+			return []Val{f.boolVal("true")}, true
+		}
+		return []Val{vs[k]}, true
 	case "zero":
 		t := f.specType(exprStr(e.Args[0]))
 		if t == nil {
@@ -438,6 +458,11 @@ func (f *FuncCtx) specCall(e *ast.CallExpr, env *Env) ([]Val, bool) {
 			return []Val{{T: "0", Typ: types.Typ[types.Int]}}, true
 		}
 		key := "calls:" + exprStr(e.Args[0])
+		if bl, ok := e.Args[0].(*ast.BasicLit); ok && bl.Kind == token.STRING {
+			if u, err := strconv.Unquote(bl.Value); err == nil {
+				key = "calls:" + u
+			}
+		}
 		if v, ok := env.names[key]; ok {
 			return []Val{v}, true
 		}
